@@ -84,6 +84,34 @@ def liesel_case(col, auto_update, rng):
     col.add({"sig": "native::interface::liesel", "what": bad, "input": inp} if bad else None)
 
 
+def ambiguous_key_case(col):
+    """a position key that names a node AND (another) variable: put/get must still agree"""
+    scale = lsl.param(np.float32(1.0), lsl.Dist(tfd.HalfNormal, scale=3.0), name="scale")      # value node 'scale_value'
+    other = lsl.Var(np.float32(7.0), name="scale_value")                                         # a VARIABLE called 'scale_value'
+    tau_node = lsl.Value(np.float32(2.0), _name="tau")
+    tau_var = lsl.Var(np.float32(9.0), name="tau")
+    y = lsl.obs(Y, lsl.Dist(tfd.Normal, loc=lsl.Calc(lambda a, b, c, d: jnp.float32(0.0) * (jnp.asarray(a, jnp.float32) + jnp.asarray(b, jnp.float32) + jnp.asarray(c, jnp.float32) + jnp.asarray(d, jnp.float32)), scale, other, tau_node, tau_var), scale=scale), name="y")
+    try:
+        model = lsl.GraphBuilder().add(y).build_model()
+    except RuntimeError:
+        col.add(None)  # the library rejects such models: nothing to check
+        return
+    iface = gs.LieselInterface(model)
+    s = model.state
+    bad = None
+    for key, val in (("scale_value", 3.5), ("tau", 4.5)):
+        out = iface.update_state({key: jnp.float32(val)}, s)
+        got = float(iface.extract_position([key], out)[key])
+        if got != val:
+            bad = f"extract_position({key!r}) after update_state({{{key!r}: {val}}}) gives {got}"
+            break
+        back = iface.update_state(iface.extract_position([key], s), s)
+        if not same(state_values(back), state_values(iface.update_state({}, s))):
+            bad = f"update_state(extract_position([{key!r}], s), s) is not a no-op"
+            break
+    col.add({"sig": "native::interface::ambiguous_key", "what": bad, "input": {"keys": ["scale_value", "tau"]}} if bad else None)
+
+
 @dataclass
 class DC:
     a: float
@@ -112,6 +140,10 @@ def bounded(tier, seed):
         for au in (True, False):
             liesel_case(col, au, rng)
     simple_cases(col)
+    try:
+        ambiguous_key_case(col)
+    except Exception as e:
+        col.add({"sig": f"native::interface::exception::{type(e).__name__}", "what": str(e)[:200], "input": {"scenario": "ambiguous key"}})
     return {"evaluations": col.evals, "distinct_nontrivial": col.evals,
             "rule": ("BOUNDED: Liesel model with two parameters, a derived sigma and a LEAF derived node pred (feeds no distribution), user model with auto_update on and off: "
                      "update_state eager vs a fresh interface (history independence) vs jax.jit vs jax.vmap vs direct assignment + full update on a new model, non-mutation of the input "
